@@ -789,6 +789,15 @@ class ExecMixin(object):
             raise Unsupported('for over zip')
         for st1, seq in self.ev(src, st, ctx):
             seq = self.iter_source(ctx, st1, seq)
+            if seq.ty == VAL:
+                # a dynamically typed slot iterated as a list: the contract names the static list type (`locals={'@iter:<expr>': T}`);
+                # anything but an object reference cannot be iterated (TypeError, an obligation under `no implicit raise`)
+                hint = (ctx.contract.locals if ctx.contract else {}).get('@iter:' + ast.unparse(src))
+                if hint is None:
+                    raise Unsupported('for over a dynamically typed value %s (no @iter hint in the contract)' % ast.unparse(src))
+                self.safe(ctx, st1, z3.And(Val.is_vref(seq.z), Val.rval(seq.z) > 0), 'TypeError', 'iteration over a value that is not a list')
+                seq = SV(hint, Val.rval(seq.z))
+                self.coll_fact(st1, hint, seq.z)
             if isinstance(seq.ty, TupleT):
                 # unroll over a python-level tuple
                 items = self.tuple_items(seq)
